@@ -1,6 +1,6 @@
 (* Extract.v — extraction of the executable model to OCaml. ExtrOcamlBasic only: N, positive, nat
    stay Coq datatypes. *)
-From TungModel Require Import Base Coding Mask Header Frame Utf8 World Message Codec Protocol Sha1 Handshake Digest Client FrameSocket MessageApi ProtocolCfg.
+From TungModel Require Import Base Coding Mask Header Frame Utf8 World Message Codec Protocol Sha1 Handshake Digest Client FrameSocket MessageApi ProtocolCfg ReadBuf.
 Require Extraction.
 Require Import ExtrOcamlBasic.
 Extraction Language OCaml.
@@ -11,4 +11,4 @@ Extraction "model.ml"
   ctx_new run_ops mkWorld mkConfig wire queued
   sha1 base64 derive_accept_key create_parts write_response generate_request into_client_request
   server_handshake client_handshake attack_check verify_response run_digest builder_request builder_request_bytes fs_run_ops
-  msg_is_text msg_is_binary msg_is_ping msg_is_pong msg_is_close msg_len msg_is_empty msg_into_data msg_into_text msg_display run_xops.
+  msg_is_text msg_is_binary msg_is_ping msg_is_pong msg_is_close msg_len msg_is_empty msg_into_data msg_into_text msg_display run_xops rb_run rb_from_partially_read rb_into_vec.
